@@ -373,10 +373,9 @@ def codec_view(path, comp, plain, probes=()):
         r2 = run([('seek', m // 2), ('read', big)])
         r3 = run([('read', m // 3), ('read', big)])
         cons = r2 == [data[m // 2:]] and r3 == [data[:m // 3], data[m // 3:]]
-        if m:
-            cons = cons and run([('seek', m - 1), ('read', 1)]) == [data[m - 1:]]
         for pos, n in probes:      # the seek+read accesses the readers of this file make
-            cons = cons and run([('seek', pos), ('read', n)]) == [data[pos:pos + n]]
+            if pos + n <= m:       # (a request reaching beyond the available bytes fails either way)
+                cons = cons and run([('seek', pos), ('read', n)]) == [data[pos:pos + n]]
         return m, False, plain.startswith(data), cons
     lo, hi = 0, len(plain)           # largest n with a single read(n) succeeding
     ok = True
